@@ -410,6 +410,9 @@ def run(tier, replay=None):
     emitrules.check_display(prog, rep, wanted={'Locale', 'ExtensionsMap', 'LanguageIdentifier', 'UnicodeExtensionList', 'TransformExtensionList', 'PrivateExtensionList'})
     for which in ('core', 'dispatch'):
         parserules.check(prog, rep, which)
+    # values built by the compile-time macros belong to this property's domain as well: the macro witnesses of C16 (cached per tree)
+    from . import c16
+    c16.witness_family(rep, tier)
     rep.explanation = ('Differential structure instead of differential execution: both entry points run the same core body on an iterator obtained with the same separator set, '
                        'LanguageIdentifier with the constant false and Locale with the constant true; the flag is read once, after the subtag loop, and false only adds the leftover rejection, '
                        'so for every input the identifier parsed is the same value; with nothing left the extension parser returns empty extensions; conversions wire the id field straight through. '
